@@ -254,8 +254,12 @@ def evaluate(cfg, shape, xs, st=None, q=None, prime=False):
                    (y / Us).reshape(-1)[i])))
   rng = live & ~off & ((k < f["kmin"]) | (k > f["kmax"]))
   if rng.any():
+    if (rng & inside).any():
+      rng = rng & inside
     i = int(np.argmax(rng.reshape(-1)))
-    fails.append(("code_range", dict(base, side="high" if k.reshape(-1)[i] > 0 else "low"),
+    fails.append(("code_range", dict(base, side="high" if k.reshape(-1)[i] > 0 else "low",
+                                     region="exact_regime" if inside.reshape(-1)[i]
+                                     else "ste_cancellation"),
                   "x=%r y=%r code=%r outside [%d,%d]" %
                   (x.reshape(-1)[i], y.reshape(-1)[i], k.reshape(-1)[i],
                    f["kmin"], f["kmax"])))
